@@ -17,8 +17,9 @@ MANIFEST = {
          "tcp/pipe/udp/tty/poll init-open-bind-listen-connect-accept-close, uv_pipe, uv_socketpair, fs open/close/mkstemp/"
          "copyfile, async, signal, fs_event, spawn stdio, IPC descriptor passing, the EMFILE trick; every error exit): every "
          "descriptor libuv leaves open is close-on-exec, libuv closes only descriptors it owns and never 0-2, no descriptor "
-         "is held by two fields, and after closing all handles and uv_loop_close only the process-wide signal lock pipe "
-         "remains. The model is tied to the working tree by running the real library with all descriptor syscalls "
+         "is held by two fields, every operation on every error exit leaves no orphan / forgotten local (`clean_always`), and "
+         "after closing all handles and uv_loop_close only the process-wide signal lock pipe remains (`no_leak`, proved at "
+         "full strength by induction over operation sequences). The model is tied to the working tree by running the real library with all descriptor syscalls "
          "interposed (and failures injected at scripted occurrences) and diffing every line; independent monitors inspect "
          "/proc/self/fd and FD_CLOEXEC after every call and the fd table of spawned helpers.",
  "note": "Trusted: Lean kernel; the interposition harness (static link: socket/socketpair/accept4/pipe2/open/openat/dup*/"
@@ -461,17 +462,28 @@ def run(ctx):
     biases = [None, None, "spawn", "accept", "ipc", "stdio", "fs", "bind"]
     def mk(i):
         return Gen(ctx, seeds[i], seeds[i].range(8, maxops), biases[i % len(biases)]).build()
-    with ThreadPoolExecutor(min(NCPU, 12)) as ex:
-        progs += list(ex.map(mk, range(n)))
     def go(ip):
         return check_program(ctx, exe, ip[1], ip[0], stats)
     diffs = []
-    with ThreadPoolExecutor(min(NCPU, 12)) as ex:
-        for (i, prog), (v, d) in zip(enumerate(progs), ex.map(go, list(enumerate(progs)))):
-            if d:
-                diffs.append((prog, d))
-            if i < 3:
-                ctx.sample({"program": prog.split("\n")[:40]})
+    def run_batch(batch, base):
+        with ThreadPoolExecutor(min(NCPU, 12)) as ex:
+            for (i, prog), (v, d) in zip(enumerate(batch), ex.map(go, [(base + k, p) for k, p in enumerate(batch)])):
+                if d:
+                    diffs.append((prog, d))
+                if base + i < 3:
+                    ctx.sample({"program": prog.split("\n")[:40]})
+    run_batch(progs, 0)
+    # generated programs in chunks, under a wall-clock budget (the machine may be shared): the number actually
+    # evaluated is recorded
+    budget = ctx.scale(40, 480)
+    done, chunk = 0, ctx.scale(50, 100)
+    while done < n and time.time() - ctx.t0 < budget:
+        k = min(chunk, n - done)
+        with ThreadPoolExecutor(min(NCPU, 12)) as ex:
+            batch = list(ex.map(mk, range(done, done + k)))
+        run_batch(batch, ncorpus + done)
+        done += k
+    ctx.notes["generated_programs"] = {"planned": n, "evaluated": done, "budget_s": budget}
     if diffs:
         prog, d = diffs[0]
         ctx.broken_correspondence("fdledger", f"{len(diffs)} programs differ; first at `{d[0]}`: {d[1]}")
@@ -485,12 +497,18 @@ def run(ctx):
         sseeds = [ctx.rng.fork() for _ in range(m)]
         def mk2(i):
             return Gen(ctx, sseeds[i], sseeds[i].range(10, maxops + 10), bias if i % 3 else biases[i % len(biases)]).build()
-        with ThreadPoolExecutor(min(NCPU, 12)) as ex:
-            sp = list(ex.map(mk2, range(m)))
         def go2(ip):
             return check_program(ctx, exe, ip[1], 100000 + ip[0], stats, do_diff=False)
-        with ThreadPoolExecutor(min(NCPU, 12)) as ex:
-            list(ex.map(go2, list(enumerate(sp))))
+        sbudget = ctx.scale(50, 300)
+        t1, sd = time.time(), 0
+        while sd < m and time.time() - t1 < sbudget and not ctx.violations:
+            k = min(100, m - sd)
+            with ThreadPoolExecutor(min(NCPU, 12)) as ex:
+                sp = list(ex.map(mk2, range(sd, sd + k)))
+            with ThreadPoolExecutor(min(NCPU, 12)) as ex:
+                list(ex.map(go2, [(sd + q, p) for q, p in enumerate(sp)]))
+            sd += k
+        m = sd
         ctx.notes["search"] = f"monitors alone over {m} more programs (bias {bias}): " + \
             ("found a failing input" if ctx.violations else "no failing input")
     ctx.notes["noted_leads"] = [
